@@ -93,3 +93,45 @@ func vh_C07_unions() {
 		vAssert(vJSONBytesEq(b1, b2), name+": encode(decode(x)) is not a fixed point of decode/encode")
 	}
 }
+
+// normalisation of one member must not change how another one is read on the next round: two properties,
+// the alphabetically later one carries the ordering extension with every letter's case a solver variable
+// ("x-order" … "X-ORDER"); the first encoding must already be the fixed point
+func vh_C07_xorder_case() {
+	key := vNondetStr("xorder.key", 7)
+	const lo, up = "x-order", "X-ORDER"
+	for i := 0; i < 7; i++ {
+		vAssume(key[i] == lo[i] || key[i] == up[i])
+	}
+	b := vJObj()
+	vJAdd(b, true, key, vJInt(1))
+	vJAdd(b, true, "description", vJStr("b"))
+	a := vJObj()
+	vJAdd(a, true, "description", vJStr("a"))
+	vJAdd(a, vNondetBool("a.order.present"), "x-order", vJInt(2))
+	props := vJObj()
+	vJAdd(props, true, "a", a)
+	vJAdd(props, true, "b", b)
+	doc := vJObj()
+	vJAdd(doc, true, "properties", props)
+	v := new(Schema)
+	if json.Unmarshal(vJBytes(doc), v) != nil {
+		return
+	}
+	b1, err := json.Marshal(v)
+	if err != nil {
+		return
+	}
+	w := new(Schema)
+	e2 := json.Unmarshal(b1, w)
+	vAssert(e2 == nil, "schema with ordered properties: the encoded form of a decoded value does not decode")
+	if e2 != nil {
+		return
+	}
+	b2, e3 := json.Marshal(w)
+	vAssert(e3 == nil, "schema with ordered properties: the second encoding fails")
+	if e3 != nil {
+		return
+	}
+	vAssert(vJSONBytesEq(b1, b2), "schema with ordered properties: encode(decode(x)) is not a fixed point of decode/encode")
+}
